@@ -4,6 +4,7 @@ import NormModel.Properties.C11
 #print axioms Norm.C11.int_valid
 #print axioms Norm.C11.float_suffix_table_complete
 #print axioms Norm.C11.float_valid
+#print axioms Norm.C11.hexfloat_valid
 #print axioms Norm.C11.char_valid
 #print axioms Norm.C11.char_escape_valid
 #print axioms Norm.C11.char_octal_valid
